@@ -76,7 +76,8 @@ bool class_in_scope(const std::string &prop, const std::string &cls, int mode, b
   }
   if (cls == "oracle_unstable") return prop == "C06" || prop == "C15";
   const bool model_cls = cls == "ret" || cls == "offset" || cls == "bytes" || cls == "fit" || cls == "count";
-  if (prop == "C06") return model_cls && mode == M_PLAIN && !via_file;
+  // (feeding a piece through the counting entry point is one more way of feeding: same bytes, same offset; the count itself is C14's)
+  if (prop == "C06") return (cls == "ret" || cls == "offset" || cls == "bytes") && (mode == M_PLAIN || mode == M_COUNT) && !via_file;
   if (prop == "C07") {
     if (!external) return false;
     if (cls == "prefix_modified") return true;
@@ -105,7 +106,7 @@ bool class_in_scope(const std::string &prop, const std::string &cls, int mode, b
     if (cls == "sim_reject") return fault_context;
     return (model_cls || cls == "binfile_ret" || cls == "exec") && fault_context;  // recovery after the last fault
   }
-  if (prop == "C18") return model_cls || cls == "exec" || cls == "options" || cls == "alone";
+  if (prop == "C18") return model_cls || cls == "exec" || cls == "options" || cls == "alone" || cls == "sim_reject" || cls == "unreadable_ret";
   if (prop == "C19") {
     if (cls == "twin" || cls == "file_content" || cls == "sim_reject" || cls == "unreadable_ret") return true;
     return cls == "binfile_ret";
